@@ -248,5 +248,29 @@ theorem mergeFirst_split {g : Ty → Option Ty} (k : Nat) : ∀ (alts alts' : Li
         obtain ⟨pre, a0, post, r, e1, e2, e3, e4⟩ := mergeFirst_split k as rs hrest hany'
         exact ⟨a :: pre, a0, post, r, by simp [e1], e2, e3, by simp [← hm, e4]⟩
 
+
+theorem find_of_mergeFirst {g : Ty → Option Ty} (k : Nat) :
+    ∀ (alts alts' : List Ty), mergeFirst g k alts = some alts' → (alts.any fun a => a.id = k) = true →
+      ∃ a r, alts.find? (fun a => a.id = k) = some a ∧ g a = some r ∧ a.id = k
+  | [], _, _, hany => by simp at hany
+  | a :: as, alts', hm, hany => by
+    simp only [mergeFirst] at hm
+    split at hm
+    · rename_i hk
+      cases hga : g a with
+      | none => simp [hga] at hm
+      | some r => exact ⟨a, r, by simp [List.find?, hk], hga, hk⟩
+    · rename_i hk
+      cases hrest : mergeFirst g k as with
+      | none => simp [hrest] at hm
+      | some rs =>
+        have hany' : (as.any fun a => a.id = k) = true := by
+          simp only [List.any_cons, Bool.or_eq_true, decide_eq_true_eq] at hany
+          rcases hany with h | h
+          · exact absurd h hk
+          · exact h
+        obtain ⟨a', r, h1, h2, h3⟩ := find_of_mergeFirst k as rs hrest hany'
+        exact ⟨a', r, by simp [List.find?, hk, h1], h2, h3⟩
+
 end Ty
 end Octo
